@@ -50,13 +50,17 @@ Inductive rerr : Type :=
 
 Inductive outcome : Type := Final (m : msg) | Failed (e : rerr).
 
-(* what a run shows: every model call's input, the calls handed to the tools node per round, the outcome *)
-Record trace : Type := mkTrace { t_inputs : list (list msg); t_rounds : list (list call); t_out : outcome }.
+(* what a run shows: every model call's input, the calls handed to the tools node per round, the
+   messages produced on the way (every model reply, then the tool messages of its round, in call
+   order — what react.WithMessageFuture hands out, flow/agent/react/option.go), the outcome *)
+Record trace : Type := mkTrace { t_inputs : list (list msg); t_rounds : list (list call);
+                                 t_emits : list msg; t_out : outcome }.
 
-Definition tr_fail (e : rerr) : trace := mkTrace [] [] (Failed e).
-Definition tr_final (m : msg) : trace := mkTrace [] [] (Final m).
-Definition tr_input (h : list msg) (t : trace) : trace := mkTrace (h :: t_inputs t) (t_rounds t) (t_out t).
-Definition tr_round (cs : list call) (t : trace) : trace := mkTrace (t_inputs t) (cs :: t_rounds t) (t_out t).
+Definition tr_fail (e : rerr) : trace := mkTrace [] [] [] (Failed e).
+Definition tr_final (m : msg) : trace := mkTrace [] [] [] (Final m).
+Definition tr_input (h : list msg) (t : trace) : trace := mkTrace (h :: t_inputs t) (t_rounds t) (t_emits t) (t_out t).
+Definition tr_round (cs : list call) (t : trace) : trace := mkTrace (t_inputs t) (cs :: t_rounds t) (t_emits t) (t_out t).
+Definition tr_emit (ms : list msg) (t : trace) : trace := mkTrace (t_inputs t) (t_rounds t) (ms ++ t_emits t) (t_out t).
 
 (* ---- streamed assistant messages -------------------------------------------------------- *)
 
@@ -145,6 +149,13 @@ Section React.
   Variable rd : string -> bool.                  (* ToolReturnDirectly *)
   Variable rd_nonempty : bool.                   (* len(ToolReturnDirectly) > 0 *)
   Variable modifier : list msg -> list msg.      (* MessageModifier (identity if none) *)
+  Variable visible : call -> bool.               (* the call is answered by a tool component (its callbacks feed
+                                                    the message future); false for a call answered by the
+                                                    UnknownToolsHandler, which has no callbacks *)
+
+  (* the tool messages of a round that the message future hands out *)
+  Definition emitted_results (calls : list call) (results : list tmsg) : list msg :=
+    map (fun p => tool_msg (snd p)) (filter (fun p => visible (fst p)) (combine calls results)).
 
   Definition tools_err {A} (r : res A) : rerr :=
     match r with Err e => ETools e | _ => ETools E_PANIC end.
@@ -159,6 +170,7 @@ Section React.
           | [] => tr_fail EModel
           | SFail :: _ => tr_fail EModel
           | SMsg content calls _ :: script' =>
+              tr_emit [assistant content calls]
               match calls with
               | [] => tr_final (assistant content [])
               | _ =>
@@ -168,7 +180,8 @@ Section React.
                       tr_round calls
                         match tn calls with
                         | Ok results =>
-                            let id := if rd_nonempty then rd_call_id rd calls else "" in
+                            tr_emit (emitted_results calls results)
+                            (let id := if rd_nonempty then rd_call_id rd calls else "" in
                             if String.eqb id "" then
                               react_spec script' b2 (hist ++ assistant content calls :: map tool_msg results)
                             else
@@ -179,7 +192,7 @@ Section React.
                                   | Some r => tr_final (tool_msg r)
                                   | None => tr_fail ENoDirect
                                   end
-                              end
+                              end)
                         | r => tr_fail (tools_err r)
                         end
                   end
@@ -228,9 +241,10 @@ Section React.
                   match delivered md content calls chunks with
                   | None => tr_fail EConcat
                   | Some m =>
-                      if checker (emitted_chunks md content calls chunks)
-                      then agent_loop md fuel' script' (TTools m) s1
-                      else tr_final m
+                      tr_emit [m]
+                      (if checker (emitted_chunks md content calls chunks)
+                       then agent_loop md fuel' script' (TTools m) s1
+                       else tr_final m)
                   end
               end
         | TTools m =>
@@ -239,10 +253,11 @@ Section React.
             tr_round (m_calls m)
               match tn (m_calls m) with
               | Ok results =>
-                  if rd_nonempty then
+                  tr_emit (emitted_results (m_calls m) results)
+                  (if rd_nonempty then
                     if String.eqb (s_rdid s1) "" then agent_loop md fuel' script (TChat (map tool_msg results)) s1
                     else agent_loop md fuel' script (TDirect results) s1
-                  else agent_loop md fuel' script (TChat (map tool_msg results)) s1
+                  else agent_loop md fuel' script (TChat (map tool_msg results)) s1)
               | r => tr_fail (tools_err r)
               end
         | TDirect results =>
@@ -263,3 +278,23 @@ Definition effective_max_steps (max_step : nat) (rd_nonempty : bool) : nat :=
   | O => if rd_nonempty then 13 else 12
   | _ => max_step
   end.
+
+(* compose/graph_run.go: a call option WithRuntimeMaxSteps(n), n > 0, replaces the compiled limit
+   (handed through agent.WithComposeOptions / agent.GetComposeOptions, flow/agent/agent_option.go) *)
+Definition call_max_steps (max_step runtime_max : nat) (rd_nonempty : bool) : nat :=
+  match runtime_max with
+  | O => effective_max_steps max_step rd_nonempty
+  | _ => runtime_max
+  end.
+
+(* ---- message modifiers of the harness (any function is allowed by the theorems) ----------- *)
+(* react.NewPersonaModifier *)
+Definition mod_persona (p : string) (h : list msg) : list msg := mkMsg RSystem p [] "" :: h.
+(* replaces the first message of the slice it is given by a prefixed copy, in place *)
+Definition mod_rewrite (h : list msg) : list msg :=
+  match h with
+  | [] => []
+  | m :: r => mkMsg (m_role m) ("R:" ++ m_content m) (m_calls m) (m_tcid m) :: r
+  end.
+(* keeps the last n messages (shifting them to the front of the slice it is given, in place) *)
+Definition mod_window (n : nat) (h : list msg) : list msg := skipn (List.length h - n) h.
